@@ -130,7 +130,7 @@ class Model:
         if kind == "kill":
             return len(set(step[2])) == len(step[2])
         if kind == "down":
-            return self.tracked[step[1]]
+            return True          # a circuit can be torn down twice (DisableSimulator, then CloseCircuit): the second time is a no-op for the graph
         if kind == "up":
             return not self.tracked[step[1]]
         if kind == "cached":
@@ -1207,6 +1207,13 @@ def bounded_random_walks(reg, tier, seed):
                     kinds[st[0]] = kinds.get(st[0], 0) + 1
                     try:
                         world.step(st)
+                        if st[0] == "down" and rng.random() < 0.6:
+                            # ... and a request made for a region that is down is cancelled when the region is torn down again
+                            for st2 in (("req", st[1], rng.choice(locals_), rng.choice((UPDATE, PROPERTIES))), ("down", st[1])):
+                                if world.model.enabled(st2):
+                                    executed += 1
+                                    distinct.add((world.model.key(), st2))
+                                    world.step(st2)
                     except Failure as f:
                         rec.record(config, world.steps, f)
                         break
